@@ -20,7 +20,7 @@ TargetKinds == {"local", "aux1", "aux2", "aux3", "trans", "selfrec", "mutual", "
 Shapes      == {"prim", "object", "arrayref", "tuple", "allof", "map", "nested", "ptrarray", "ref"}
 HolderKinds == {"prop", "items", "tuple", "addprops", "additems", "allof", "alias", "opbody", "pathbody",
                 "code", "default", "sharedparam", "sharedresp", "nested", "opnested", "opitems",
-                "auxresp", "auxparam", "auxpathitem", "unusedparam", "unusedresp", "casesiblings",
+                "auxresp", "auxparam", "auxpathitem", "unusedparam", "unusedresp", "unusedalias", "casesiblings",
                 "patprop", "anyof", "oneof", "not", "nesteddefs"}
 AuxHolders  == {"auxresp", "auxparam", "auxpathitem"}
 SecondKinds == {"none", "code", "prop2", "same"}
@@ -161,6 +161,10 @@ Holder(h, REF) ==
                              path |-> PathItemWith([get |-> Op([responses |-> OkResponses])])]
     [] h = "unusedresp"  -> [defs |-> <<>>, params |-> <<>>, resps |-> [N_12 |-> Resp([schema |-> REF])],
                              path |-> PathItemWith([get |-> Op([responses |-> OkResponses])])]
+    \* an alias definition that nothing refers to, beside a user of the same target: after a name collision the alias becomes
+    \* the home of the imported schema (stripOAIGen) and every other holder is re-pointed to it
+    [] h = "unusedalias" -> [defs |-> [N_8 |-> REF], params |-> <<>>, resps |-> <<>>,
+                             path |-> PathItemWith([get |-> Op([responses |-> Mk(<<>>, ("200" :> Resp([schema |-> REF])))])])]
     [] h = "sharedparam" -> [defs |-> <<>>, params |-> [N_12 |-> BodyParam(REF)], resps |-> <<>>,
                              path |-> PathItemWith([post |-> Op([parameters |-> ListOf(<<RefTo(<<"root", "parameters", "N_12">>)>>), responses |-> OkResponses])])]
     [] h = "sharedresp"  -> [defs |-> <<>>, params |-> <<>>, resps |-> [N_12 |-> Resp([schema |-> REF])],
